@@ -24,6 +24,32 @@ type Verdict struct {
 	Why     string
 }
 
+// judgeReplyAdded: the verdict when the serving location adds response headers of its own
+// (configuration `respHeaders`). What the origin itself forbids stays forbidden; where the
+// added headers would change the reading (an added Cache-Control giving a lifetime the
+// origin did not give) the statement does not say which wins and nothing is asserted.
+func judgeReplyAdded(method string, status int, h http.Header, added http.Header) Verdict {
+	v := judgeReply(method, status, h)
+	if len(added) == 0 {
+		return v
+	}
+	switch v.Why {
+	case "method", "set-cookie", "no-cache", "no-store", "private":
+		return v
+	}
+	all := h.Clone()
+	for k, vs := range added {
+		for _, x := range vs {
+			all.Add(k, x)
+		}
+	}
+	v2 := judgeReply(method, status, all)
+	if v2.MustNot != v.MustNot || v2.Shareable != v.Shareable || v2.Lifetime != v.Lifetime || v2.Ambiguous != v.Ambiguous {
+		return Verdict{Ambiguous: true, Why: "location adds caching headers"}
+	}
+	return v
+}
+
 func judgeReply(method string, status int, h http.Header) Verdict {
 	v := Verdict{}
 	if method != http.MethodGet && method != http.MethodHead {
@@ -112,7 +138,15 @@ func judgeReply(method string, status int, h http.Header) Verdict {
 			v.Why = "several Age headers"
 			return v
 		}
-		a, err := strconv.Atoi(strings.TrimSpace(ages[0]))
+		age := strings.TrimSpace(ages[0])
+		if age != "" && strings.Trim(age, "0123456789") == "" && len(strings.TrimLeft(age, "0")) > 10 {
+			// a well-formed Age beyond any representable lifetime: max-age (at most 2^31-1
+			// here) minus Age is negative whatever the integer width
+			v.MustNot = true
+			v.Why = "huge Age"
+			return v
+		}
+		a, err := strconv.Atoi(age)
 		if err != nil || a < 0 || a > 1<<31-1 {
 			// malformed Age: either ignored or read literally - nothing is asserted
 			// unless the lifetime is non-positive under the "ignored" reading too
